@@ -18,7 +18,8 @@ impl Transform for Slice {
             to = str.len();
         }
 
-        str[from..to].to_string()
+        // from > to, or an index inside a multi-byte character, selects nothing
+        str.get(from..to).unwrap_or_default().to_string()
     }
 }
 
